@@ -43,8 +43,10 @@ Definition expect_pkt (p : packet) (k : list fv -> prog) : prog :=
 
 Definition bad := Ret (OErr KInternalIo).   (* unreachable: a decoded list of the wrong shape *)
 
-Definition key_timeout := str "disconnect_timeout".
-Definition key_no_target := str "disconnect_no_target".
+Definition key_timeout : bytes := Eval vm_compute in str "disconnect_timeout".
+Definition key_no_target : bytes := Eval vm_compute in str "disconnect_no_target".
+Definition auth_key_b : bytes := Eval vm_compute in str auth_cookie_key.
+Definition session_key_b : bytes := Eval vm_compute in str session_cookie_key.
 
 Section Listen.
   Variable o : oracles.
@@ -59,7 +61,7 @@ Section Listen.
     else match cf_secret cfg with
     | None => k true name uuid []
     | Some secret =>
-      Send login_cb_CookieRequestPacket [VB (str auth_cookie_key)] (
+      Send login_cb_CookieRequestPacket [VB (auth_key_b)] (
       expect_pkt login_sb_CookieResponsePacket (fun vs =>
         match vs with
         | [VB _; VOpt None] => k true name uuid []
@@ -104,7 +106,7 @@ Section Listen.
                 | Some _ => k
                 | None => Fresh RUuid (fun u =>
                     Send configuration_cb_StoreCookiePacket
-                      [VB (str session_cookie_key);
+                      [VB (session_key_b);
                        VB (o_ser_session o {| sc_id := be_dec u; sc_host := host; sc_port := port |})] k)
                 end in
               let transfer :=
@@ -115,7 +117,7 @@ Section Listen.
                 | Some secret =>
                     Now (fun now =>
                       Send configuration_cb_StoreCookiePacket
-                        [VB (str auth_cookie_key);
+                        [VB (auth_key_b);
                          VB (sign (o_ser_auth o {| ac_ts := now; ac_addr := client; ac_name := name; ac_uuid := uuid;
                                                    ac_target := Some (t_id t); ac_props := props; ac_extra := [] |})
                                   secret)]
@@ -154,7 +156,7 @@ Section Listen.
         expect_pkt login_sb_LoginStartPacket (fun vs =>
         match vs with
         | [VB name0; VZ uuid0] =>
-          Send login_cb_CookieRequestPacket [VB (str session_cookie_key)] (
+          Send login_cb_CookieRequestPacket [VB (session_key_b)] (
           expect_pkt login_sb_CookieResponsePacket (fun vs =>
           match vs with
           | [VB _; VOpt payload] =>
